@@ -148,9 +148,13 @@ PROPS = {
         },
     },
     "C15": {
-        "lean": ["TinkVerif.Props.C15"],
+        "lean": ["TinkVerif.Props.C15", "TinkVerif.Props.C15Deep"],
         "theorems": T("TinkVerif.Hmac", "expand_prefix expand_length expand_first_block hkdf_limit hkdf_prefix computeHKDF_spec "
-                      "computeHKDF_guard hmac_empty_key_eq_zero_key") + ["TinkVerif.truncating_prf_prefix"],
+                      "computeHKDF_guard hmac_empty_key_eq_zero_key expand_eq_rfc expand_eq_Tconcat okm_undefined hkdf_eq_rfc "
+                      "hkdf_none_iff computeHKDF_eq_rfc computeHKDF_none_iff hmac_eq_rfc2104 hmac_length hmac_long_key hmac_pad_zeros "
+                      "hkdf_empty_salt_eq_rfc computeHKDF_eq_hkdf expand_read_split hkdf_common_prefix computeHKDF_prefix") +
+                    T("TinkVerif.Prf", "truncPrf_spec hmacPrf_spec hmacPrf_prefix cmacPrf_spec cmacPrf_prefix hkdfPrf_spec") +
+                    ["TinkVerif.truncating_prf_prefix"],
         "harness": [{"name": "c15"}],
         "rule": "HMAC-PRF (5 hashes, any key size), HKDF-PRF (salts nil/empty/short/hashLen/long), AES-CMAC-PRF through prf/subtle and "
                 "prf.NewPRFSet over mixed multi-key keysets with DISABLED/DESTROYED keys; output lengths 0..max+1 (exhaustive for "
@@ -176,10 +180,13 @@ AEAD_RULE = ("AES-GCM{16,32}, AES-CTR-HMAC{aes 16,32}Ã—{iv 12..16}Ã—{SHA1..512}Ã
              "entry points aead.New(handle), per-key constructors, key managers and aead/subtle; rejected constructions (24-byte AES keys); pt/ad lengths on block boundaries up to 4 KiB "
              "(thorough: 256 KiB), ad nil/empty/non-empty; ")
 PROPS["C01"] = {
-    "lean": ["TinkVerif.Props.C01"],
+    "lean": ["TinkVerif.Props.C01", "TinkVerif.Props.C01Deep"],
     "theorems": T("TinkVerif.Aead", "xorBE_involutive xorLE32_involutive blockBE_spec blockLE32_tail Full.decrypt_encrypt Full.layout "
                   "EtM.decrypt_encrypt EtM.layout GcmSiv.decrypt_encrypt GcmSiv.layout GcmSiv.full_decrypt_encrypt "
-                  "Xaes.decrypt_encrypt xaes_key_derivation envelope_roundtrip"),
+                  "Xaes.decrypt_encrypt xaes_key_derivation envelope_roundtrip "
+                  "EtM.macInput_inj EtM.macInput_eq_iff be64_bitlen_inj be32_bitlen_wrap Xaes.decrypt_encrypt_min xaesDeriveKey_take12 "
+                  "GcmSiv.ctrIV_msb GcmSiv.tagBlock_ne_ctr_block GcmSiv.polyvalInput_length_mod envelopeSerialize_eq_some_iff "
+                  "envelopeParse_serialize envelopeSerialize_parse"),
     "harness": [{"name": "c01", "args": ["-mode", "rt"], "pre": True}],
     "rule": AEAD_RULE + "(a) Go Encrypt â†’ the Lean model re-encrypts with the nonce read from the ciphertext and must reproduce it byte for "
             "byte, and decrypts it; (b) the Lean model encrypts with a harness-chosen nonce (two-phase run) â†’ Go Decrypt must return the "
@@ -212,9 +219,14 @@ PROPS["C01"] = {
     },
 }
 PROPS["C02"] = {
-    "lean": ["TinkVerif.Props.C01"],
+    "lean": ["TinkVerif.Props.C01", "TinkVerif.Props.C01Deep"],
     "theorems": T("TinkVerif.Aead", "Full.decrypt_iff Full.decrypt_short Full.decrypt_wrong_prefix EtM.decrypt_iff GcmSiv.decrypt_iff "
-                  "envelope_reject"),
+                  "envelope_reject EtM.decrypt_short EtM.decrypt_wrong_prefix EtM.decrypt_bad_tag EtM.decrypt_some_iff_encrypt "
+                  "EtM.reject_modified_ad EtM.reject_modified_payload EtM.reject_modified_tag EtM.accepted_other_is_fresh "
+                  "EtM.macInput_inj EtM.macInput_collision_at_2_61 GcmSiv.decrypt_some_iff_encrypt GcmSiv.reject_modified_ad "
+                  "GcmSiv.reject_modified_body GcmSiv.fullDecrypt_iff GcmSiv.fullDecrypt_wrong_prefix Xaes.decrypt_iff Xaes.decrypt_short "
+                  "Xaes.decrypt_wrong_prefix envelopeParse_eq_none_iff envelopeParse_reject_overlong envelopeParse_reject_zero "
+                  "envelopeParse_reject_above_limit outputPrefix_eq_iff Full.decrypt_foreign_prefix EtM.decrypt_other_key"),
     "harness": [{"name": "c01", "args": ["-mode", "mut"], "pre": True}],
     "rule": AEAD_RULE + "per valid ciphertext: 10 random mutations (flip/truncate/extend/drop/prefix/random/strip), flips and cuts at "
             "every field boundary, short random strings of every length up to prefix+nonce+tag+1, other variant's start byte, RAWâ†”prefixed "
@@ -267,8 +279,12 @@ PROPS["C14"] = {
     },
 }
 PROPS["C13"] = {
-    "lean": ["TinkVerif.Props.C14"],
-    "theorems": T("TinkVerif.Keyset", "noSecrets_sound noSecrets_complete noSecrets_any_position"),
+    "lean": ["TinkVerif.Props.C14", "TinkVerif.Props.C13Info"],
+    "theorems": T("TinkVerif.Keyset", "noSecrets_sound noSecrets_complete noSecrets_any_position") +
+                T("TinkVerif.KInfo", "info_noninterference info_ignores_key_material info_entries info_fields keyInfo_fields "
+                  "encryptedKeyset_noninterference encryptedKeyset_fields binaryForm_fields fromWire_toWire parseKeyset_encode "
+                  "readEncrypted_writeEncrypted readBinary_writeBinary readEncrypted_wrong_ad readEncrypted_wrong_key "
+                  "readBinary_wrong_ad readBinary_wrong_key"),
     "harness": [{"name": "c13"}],
     "rule": "keysets of every key type with the secret key at each position, mixed public/secret, unknown material enum values and type "
             "URLs; NewHandleWithNoSecrets / ReadWithNoSecrets / WriteWithNoSecrets decisions vs the model; every String(), KeysetInfo() "
